@@ -9,6 +9,7 @@
     decidable, and exactly what [add_definition]'s [assert_eq!] is meant to enforce),
     [C08_decodes_partial], [C08_validates], [C10_rust], [C14_agree]. *)
 From Coq Require Import String List NArith ZArith.
+From Borsh Require Import Discr Item DeriveCheck DeriveSchemaAccept.
 From Borsh Require Import Bytes Result Ty Ser De C04Facts Schema SchemaFns SchemaSpec SchemaOf SchemaDec SchemaOfFacts
      SchemaOfCover SchemaOfDecode SchemaOfValidate SchemaOfFits.
 Import ListNotations.
@@ -226,3 +227,12 @@ Example C08_coherent_instance :
   wire_empty (TProd PTuple [TArray 0 ex_u8; TUnit UPhantom]) = true /\
   mem_zst (TProd PTuple [TArray 0 ex_u8; TUnit UPhantom]) = true.
 Proof. repeat split; vm_compute; reflexivity. Qed.
+
+
+(** "The schema derive accepts every struct and enum definition that the serialization derives accept": at the
+    level of the macros' own checks.  (That rustc then compiles what the schema derive emits is validated by
+    generated programs; the recorded exceptions are findings F14, F16, F19, F23, F24.) *)
+Theorem C08_schema_derive_accepts :
+  forall it : item, check DSer it = accept -> check DSchema it = accept.
+Proof. exact ser_accept_schema_accept. Qed.
+Print Assumptions C08_schema_derive_accepts.
